@@ -50,6 +50,7 @@ import (
 	"go/types"
 	"log"
 	"os"
+	"regexp"
 	"runtime"
 	"slices"
 	_ "unsafe"
@@ -104,6 +105,7 @@ type interpreter struct {
 	pools     map[*value][]value
 	fresh     map[*value]*Term
 	hexTexts  []*Term
+	regexps   map[*value]*regexp.Regexp
 }
 
 type deferred struct {
